@@ -167,6 +167,16 @@ CHECKS["C16"] = dict(
     ref="DESIGN.md section 4, C16",
 )
 
+CHECKS["C17"] = dict(
+    category="exploration",
+    technique="bounded-exhaustive enumeration of accepted programs x optimisation levels through the real compiler driver, reload in the same and in another process (different hash seed), listing and behaviour equality",
+    text="Every program of the enumerated families (about 5000 in quick) at -O 0 and -O 1 is written by nslc.py itself and reloaded by "
+         "name in-process and in a second interpreter with another hash seed; listing, metadata and VM results on the input grid must "
+         "match the in-memory module; plus genuine nslc.py/nslr.py subprocess runs and a size sweep (1-400 statements, 2-120 operands).",
+    note="Trusted: pickle.dump interposition to observe the written object; the in-memory module as oracle.",
+    ref="DESIGN.md section 4, C17",
+)
+
 PENDING = {}
 
 
